@@ -94,7 +94,7 @@ class C06(fw.Prop):
             "0, 1, 255, 2^32-200, 2^32-4, 2^32-1 (so the counter reaches 2^32); received counter sequences with duplicates, decreasing runs, the value equal to the last accepted and jumps to 2^32-1; "
             "every step compared with the model (counters, ghost logs implied by the outputs); in addition security.encrypt / security.gmac are wrapped "
             "inside the harness process and the property is evaluated on the implementation: nonces pairwise distinct, k-th use = start + k, accepted "
-            "counters strictly increasing; the same AARQ/RLRQ object handed to send() again after a rejection / for a second association; the counter carried on the wire by the k-th protected item is start+k; the meter's side uses harness/refcrypto.py; non-trivial = distinct history")
+            "counters strictly increasing; the same AARQ/RLRQ object handed to send() again after a rejection / for a second association; the counter carried on the wire by the k-th protected item is start+k; the meter's side uses harness/refcrypto.py; a recorded rejecting AARE delivered on every later attempt; a DlmsClient whose transport fails after the request was written (no counter twice on the wire); non-trivial = distinct history")
     trusted_base = ["the symbolic-cryptography abstraction (DESIGN.md §5b)", "the nonce observer wraps dlms_cosem.security from inside the harness (no source hook)"]
     assumptions = ["'protected item' = a ciphered APDU or an HLS proof: both consume a counter (the two clauses of C06 cannot both hold literally in an HLS session; freshness is normative, DESIGN.md §6 C06)"]
     technique = "Lean 4 proof by induction over histories with the invariant 'the log of key uses is start, start+1, … under the client title' and 'accepted counters strictly increase'; differential correspondence + nonce observation on the implementation"
